@@ -19,7 +19,8 @@ import (
 //   - after cancel a consumer that keeps receiving sees the stream end.
 
 type c19Op struct {
-	Kind  string `json:"kind"` // "write" | "burst" | "sleep"
+	Kind  string `json:"kind"`          // "write" | "burst" | "sleep"
+	How   string `json:"how,omitempty"` // write: "" = overwrite the first line in place, "truncate" = cut the file to 0 bytes, "append"
 	Dir   int    `json:"dir"`
 	File  string `json:"file"`
 	N     int    `json:"n"`     // burst size / sleep ms
@@ -37,12 +38,26 @@ func c19IsTOML(name string) bool { return strings.HasSuffix(name, ".toml") }
 
 const c19Live = 10 * time.Second
 
-func c19Write(root string, dir int, file string, seq int) error {
-	f, err := os.OpenFile(filepath.Join(root, c12Dirs[dir], file), os.O_WRONLY, 0)
+func c19Write(root string, dir int, file string, seq int, how string) error {
+	path := filepath.Join(root, c12Dirs[dir], file)
+	if how == "truncate" { // the file is emptied in place (one modification event); an empty file is written to instead
+		if st, err := os.Stat(path); err == nil && st.Size() > 0 {
+			return os.Truncate(path, 0)
+		}
+	}
+	flags := os.O_WRONLY
+	if how == "append" {
+		flags |= os.O_APPEND
+	}
+	f, err := os.OpenFile(path, flags, 0)
 	if err != nil {
 		return err
 	}
-	_, err = f.WriteAt([]byte(fmt.Sprintf("# %06d\n", seq)), 0) // one write(2), in place, no truncation
+	if how == "append" {
+		_, err = f.Write([]byte(fmt.Sprintf("# %06d\n", seq)))
+	} else {
+		_, err = f.WriteAt([]byte(fmt.Sprintf("# %06d\n", seq)), 0) // one write(2), in place, no truncation
+	}
 	f.Close()
 	return err
 }
@@ -115,9 +130,9 @@ func runC19(root string, c C19Case) (nontrivial bool, v *Violation) {
 		}
 		return nil
 	}
-	write := func(dir int, file string) *Violation {
+	write := func(dir int, file string, how string) *Violation {
 		seq++
-		if err := c19Write(root, dir, file, seq); err != nil {
+		if err := c19Write(root, dir, file, seq, how); err != nil {
 			return violation("C19", "harness", "", "write: %v", err)
 		}
 		if c19IsTOML(file) {
@@ -131,7 +146,7 @@ func runC19(root string, c C19Case) (nontrivial bool, v *Violation) {
 	for d := range c12Dirs {
 		ready := false
 		for try := 0; try < 200 && !ready; try++ {
-			if wv := write(d, "warmup.toml"); wv != nil {
+			if wv := write(d, "warmup.toml", ""); wv != nil {
 				return false, wv
 			}
 			ready = recv(50 * time.Millisecond)
@@ -153,17 +168,18 @@ func runC19(root string, c C19Case) (nontrivial bool, v *Violation) {
 		sawTOML := false
 		switch op.Kind {
 		case "write":
-			if wv := write(op.Dir, op.File); wv != nil {
+			if wv := write(op.Dir, op.File, op.How); wv != nil {
 				return false, wv
 			}
 			sawTOML = c19IsTOML(op.File)
+			classifyIf(op.How != "", "write by "+op.How)
 		case "burst":
 			for k := 0; k < op.N; k++ {
 				file := op.File
 				if k%3 == 2 {
 					file = c19Files[(k+op.Dir)%len(c19Files)]
 				}
-				if wv := write((op.Dir+k)%4, file); wv != nil {
+				if wv := write((op.Dir+k)%4, file, ""); wv != nil {
 					return false, wv
 				}
 				sawTOML = sawTOML || c19IsTOML(file)
@@ -205,7 +221,7 @@ func runC19(root string, c C19Case) (nontrivial bool, v *Violation) {
 	stop := make(chan struct{})
 	switch c.CancelWith {
 	case "pending":
-		if wv := write(0, "a.toml"); wv != nil {
+		if wv := write(0, "a.toml", ""); wv != nil {
 			return false, wv
 		}
 		time.Sleep(30 * time.Millisecond)
@@ -253,6 +269,7 @@ func genC19(t *rapid.T) C19Case {
 		case k < 5:
 			op.Kind = "write"
 			op.File = rapid.SampledFrom(c19Files).Draw(t, "file")
+			op.How = rapid.SampledFrom([]string{"", "", "truncate", "append"}).Draw(t, "how")
 		case k < 9:
 			op.Kind = "burst"
 			op.File = rapid.SampledFrom(c19Files).Draw(t, "file")
@@ -279,7 +296,7 @@ func (c C19Case) Sample() interface{} {
 		s := ""
 		switch o.Kind {
 		case "write":
-			s = fmt.Sprintf("write %s/%s", c12Dirs[o.Dir][len("hidi-config/"):], o.File)
+			s = fmt.Sprintf("write %s/%s %s", c12Dirs[o.Dir][len("hidi-config/"):], o.File, o.How)
 		case "burst":
 			s = fmt.Sprintf("burst x%d from %s/%s", o.N, c12Dirs[o.Dir][len("hidi-config/"):], o.File)
 		default:
